@@ -12,9 +12,14 @@
 //!                                     of sst/ and trash/ with the setsum of its final block, the
 //!                                     setsum recomputed from its entries, its entries; logs; the
 //!                                     verifier's manifest; ManifestVerifier::verify per fragment
+//!       inspect <dir> brief           the same, restricted to what can have changed (see `inspect`)
+//!       sst <path>                    one sst: final-block setsum, recomputed setsum, entries
 //!       verify <dir> <passes> [opts]  LsmVerifier::open + verify() `passes` times
 //!       build <path> <k:ts:v>...      SstBuilder over the given entries; prints the setsum
-//!       crc <hex>                     crc32c of the bytes (for re-framing tampered manifest lines)
+//!       logsum <path> <batches>       sst::log: WriteBatches (entries k:ts:vlen, ',' inside a batch,
+//!                                     ';' between batches; a value is vlen bytes of ts%251) appended
+//!                                     to a LogBuilder; prints the setsum seal() returns, the setsum
+//!                                     log_to_setsum reads back, and which puts were accepted
 use std::collections::{BTreeMap, BTreeSet, HashSet};
 use std::io::{BufRead, Write};
 use std::path::{Path, PathBuf};
@@ -130,12 +135,21 @@ fn fragments(mani_root: &Path) -> Vec<(String, PathBuf)> {
     out
 }
 
-fn inspect(out: &mut impl Write, root: &str) {
+/// brief: only the newest three manifest fragments (older ones are frozen and were inspected
+/// when they were new), only the live verify manifest, and ssts by name only (`sst <path>` reads one)
+fn inspect(out: &mut impl Write, root: &str, brief: bool) {
     let rootp = PathBuf::from(root);
     for (tag, dir) in [("mani", rootp.join("mani")), ("verify", rootp.join("verify"))] {
         let mut strs: BTreeSet<String> = BTreeSet::new();
         let mut info: BTreeMap<char, String> = BTreeMap::new();
-        for (id, path) in fragments(&dir) {
+        let frs = fragments(&dir);
+        let skip = if !brief { 0 } else if tag == "mani" { frs.len().saturating_sub(3) } else { frs.len().saturating_sub(1) };
+        for (id, path) in frs.iter() {
+            if skip > 0 && id != "cur" {
+                writeln!(out, "FRAGID {tag} {id}").unwrap();
+            }
+        }
+        for (id, path) in frs.into_iter().skip(skip) {
             if !path.is_file() {
                 continue;
             }
@@ -185,7 +199,11 @@ fn inspect(out: &mut impl Write, root: &str) {
     for sub in ["sst", "trash"] {
         for n in sorted_names(&rootp.join(sub)) {
             if n.ends_with(".sst") {
-                writeln!(out, "SST {sub} {} {}", &n[..n.len() - 4], read_sst(&rootp.join(sub).join(&n))).unwrap();
+                if brief {
+                    writeln!(out, "SSTNAME {sub} {}", &n[..n.len() - 4]).unwrap();
+                } else {
+                    writeln!(out, "SST {sub} {} {}", &n[..n.len() - 4], read_sst(&rootp.join(sub).join(&n))).unwrap();
+                }
             } else {
                 writeln!(out, "OTHER {sub} {n}").unwrap();
             }
@@ -221,8 +239,11 @@ fn tool() {
         let mut buf: Vec<u8> = vec![];
         let r = std::panic::catch_unwind(std::panic::AssertUnwindSafe(|| match t[0] {
             "inspect" => {
-                inspect(&mut buf, t[1]);
+                inspect(&mut buf, t[1], t.len() > 2 && t[2] == "brief");
                 writeln!(buf, "END").unwrap();
+            }
+            "sst" => {
+                writeln!(buf, "SST1 {}", read_sst(Path::new(t[1]))).unwrap();
             }
             "verify" => {
                 let passes: usize = t[2].parse().unwrap();
@@ -264,6 +285,44 @@ fn tool() {
                 match res {
                     Ok(s) => writeln!(buf, "BUILT {s}").unwrap(),
                     Err(e) => writeln!(buf, "BUILT err {}", err_class(&e)).unwrap(),
+                }
+            }
+            "logsum" => {
+                let _ = std::fs::remove_file(t[1]);
+                let res = (|| -> Result<String, lsmtk::SError> {
+                    let mut lb = sst::log::LogBuilder::new(sst::log::LogOptions::default(), t[1])?;
+                    let mut accepted = vec![];
+                    let mut refused = 0;
+                    for batch in t[2].split(';') {
+                        let mut wb = sst::log::WriteBatch::default();
+                        let mut any = false;
+                        for e in batch.split(',').filter(|x| !x.is_empty()) {
+                            let p: Vec<&str> = e.split(':').collect();
+                            let key = unhex(p[0]);
+                            let ts: u64 = p[1].parse().unwrap();
+                            let r = if p[2] == "~" {
+                                wb.del(&key, ts)
+                            } else {
+                                let vlen: usize = p[2].parse().unwrap();
+                                wb.put(&key, ts, &vec![(ts % 251) as u8; vlen])
+                            };
+                            match r {
+                                Ok(()) => { accepted.push(e.to_string()); any = true; }
+                                Err(_) => refused += 1,
+                            }
+                        }
+                        if any {
+                            lb.append(&wb)?;
+                        }
+                    }
+                    let (sum, _) = lb.seal()?;
+                    let back = sst::log::log_to_setsum(sst::log::LogOptions::default(), t[1])?;
+                    Ok(format!("LOGSUM seal={} file={} refused={} accepted={}", sum.hexdigest(), back.hexdigest(), refused, accepted.join(",")))
+                })();
+                let _ = std::fs::remove_file(t[1]);
+                match res {
+                    Ok(s) => writeln!(buf, "{s}").unwrap(),
+                    Err(e) => writeln!(buf, "LOGSUM err {}", err_class(&e)).unwrap(),
                 }
             }
             _ => writeln!(buf, "BADOP {}", t[0]).unwrap(),
